@@ -32,7 +32,13 @@ RULE = ("feature sets of 12-90 lines over 2-6 seqids (mixed case, non-ASCII), 2-
         "id / by Feature) and in-place rewrites through add_relation(parent_func=, child_func=) adding attributes, "
         "optionally primed before and reopened after, then full iteration, order_by='file_order' (str/tuple/list/"
         "reverse), featuretypes(), seqids(), counts per type and 5 random queries are judged against the surviving "
-        "features.  Feature-set flavours rotate (of 6: 2 plain, 2 odd, 1 'empty', 1 'norm'): 'empty' = seqid and/or source "
+        "features.  Feature-set flavours rotate (of 6: 1 plain, 2 odd, 1 'empty', 1 'norm', 1 'strands'): 'strands' = the strand "
+        "column holds '+', '-', '.', the legal GFF3 '?' and 1-4 values a file may carry although the format does not list them "
+        "('*', 'plus', '0', '1', '+-', 'F', 'unknown', ...), 75% of its queries filter on a strand value present in the data "
+        "(rarely on one that is not), combined with featuretype / order_by / reverse / limit as drawn; 40% of all ordered queries "
+        "hand the order_by names over as strings BUILT AT RUN TIME - ''.join(list(name)), split out of 'seqid,<name>,x', decoded "
+        "from bytes, a str subclass instance, strip()ed, concatenated - equal to the literal names but other objects, alone (str "
+        "and 1-tuple) and inside tuples / lists; 'empty' = seqid and/or source "
         "is the EMPTY string on some lines (or every seqid is; imported from a file), limit= naming the empty seqid; 'norm' "
         "= seqids / featuretypes / sources that differ only by Unicode normalisation form (NFC vs NFD) or only in case, "
         "queried by either twin and by twins that are not stored.  Per feature set 1-2 'encodings' cases: the database is "
@@ -96,6 +102,25 @@ REQUIRED = ["queries executed", "calls of the real query methods", "result rows 
             "sortedness checks with NFC/NFD twins among the sort keys",
             "distinct lists compared on a set with NFC/NFD twins",
             "count_features_of_type comparisons for a type with a stored NFC/NFD twin",
+            # strand values, order_by names built at run time
+            "feature sets: strand '?' stored", "feature sets: strand values other than + - . ? stored",
+            "strand filter '?': results judged (value present in the data)",
+            "strand filter an unusual value (none of + - . ?): results judged (value present in the data)",
+            "strand filter other than '+' / '-' / '.': non-empty results: all_features",
+            "strand filter other than '+' / '-' / '.': non-empty results: features_of_type",
+            "strand filter other than '+' / '-' / '.': non-empty results with a featuretype restriction",
+            "strand filter other than '+' / '-' / '.': non-empty results with order_by",
+            "strand filter other than '+' / '-' / '.': non-empty results with order_by and reverse",
+            "order_by names equal to, but not the same object as, the literal column name",
+            "results judged for order_by 'length' built at run time: alone, as str",
+            "results judged for order_by 'length' built at run time: alone, in a 1-tuple",
+            "results judged for order_by 'length' built at run time: inside a tuple of several",
+            "results judged for order_by 'length' built at run time: inside a list of several",
+            "results judged for order_by 'file_order' built at run time: alone, as str",
+            "results judged for order_by 'file_order' built at run time: inside a tuple of several",
+            "results judged for a real column name built at run time: alone",
+            "results judged for a real column name built at run time: inside a tuple / list"] + \
+           ["results judged for order_by names built at run time (%s)" % h for h in G.OB_BUILDS] + [
             # default_encoding
             "encodings: databases opened under utf-8 / latin-1 / ascii", "encodings: handles opened with default_encoding=",
             "encodings: databases with non-ASCII seqids / featuretypes / sources stored",
@@ -122,7 +147,9 @@ REQUIRED_CLASSES = ["order_by=" + c for c in M.ORDERABLE] + ["order_by: none", "
                                                              "featuretype containing a comma (str)",
                                                              "featuretype containing a comma (collection)",
                                                              "history: deletes and rewrites",
-                                                             "feature set: empty", "feature set: norm",
+                                                             "feature set: empty", "feature set: norm", "feature set: strands",
+                                                             "with strand '?'", "with an unusual strand value"]
+REQUIRED_CLASSES += ["order_by name built at run time=" + c for c in M.ORDERABLE] + [
                                                              "same database under default_encoding utf-8 / latin-1 / ascii"]
 ASSUMPTIONS = [
     "sortedness is judged under SQLite BINARY semantics: NULL first, integers numerically, text by UTF-8 bytes; "
@@ -147,6 +174,11 @@ ASSUMPTIONS = [
     "argument, which is not this property's subject)",
     "text is compared code point by code point: values that differ only by Unicode normalisation form or only in case are "
     "different values in filters, distinct lists and counts, and sort by their code points (= UTF-8 bytes)",
+    "a strand filter is any non-empty string: it selects the features whose stored strand column equals it, whether the value "
+    "is one of '+', '-', '.', the legal '?' or anything else a file carried (create_db stores the column verbatim); the empty "
+    "string as a strand filter is not generated (the unchanged tree treats strand='' as 'no restriction')",
+    "an order_by name is identified by its value (==), not by object identity: a str equal to a valid name - built at run "
+    "time, or an instance of a str subclass - is that name",
     "default_encoding only says how bytes keys are decoded; with str arguments every result (values and order, ties "
     "included: same file, same statement) is the same under utf-8, latin-1 and ascii; text_factory is left at its default",
 ]
@@ -252,6 +284,44 @@ def ft_arg(q):
     if q["ft_form"] == "str":
         return q["ft"][0]
     return FT_MAKERS[q["ft_form"]](ft_values(q))
+
+
+class _Name(str):
+    """A str subclass instance (what a config / CLI / enum layer may hand over)."""
+
+
+def fresh_name(name, how):
+    """A str EQUAL TO `name` built at run time, so that it is not the object of the literal."""
+    if how == "join":
+        return "".join(list(name))
+    if how == "split":
+        return ("seqid," + name + ",x").split(",")[1]
+    if how == "bytes":
+        return str(name.encode("ascii"), "ascii")
+    if how == "subclass":
+        return _Name(name)
+    if how == "strip":
+        return (" " + name + "\n").strip()
+    if how == "concat":
+        return name[:2] + name[2:]
+    raise ValueError(how)
+
+
+def rebuilt(ctx, ob, how):
+    """order_by argument `ob` (str / tuple / list) with every name replaced by a run-time built equal string."""
+    import sys
+
+    def one(name):
+        new = fresh_name(name, how)
+        if new == name and new is not sys.intern(str(name)):
+            ctx.mon("order_by names equal to, but not the same object as, the literal column name")
+        else:
+            ctx.mon("order_by names built at run time that ARE the literal's object (nothing exercised)")
+        return new
+
+    if isinstance(ob, str):
+        return one(ob)
+    return type(ob)(one(c) for c in ob)
 
 
 def call(db, q, order_by, features=False):
@@ -396,9 +466,13 @@ def judge_query(ctx, case, db, rows, by_id, q, after_history=False):
     qd = {k: v for k, v in q.items() if v is not None and v is not False}
     seqs = {}
     nkeys = 0
+    built = q.get("ob_built") if cols is not None else None
+    odd_strand = q["strand"] is not None and q["strand"] not in ("+", "-", ".")
     for label, ob in variants:
         sqltrace.reset()
         ctx.mon("calls of the real query methods")
+        if built:
+            ob = rebuilt(ctx, ob, built)
         try:
             got = call(db, q, ob)
         except Exception as ex:
@@ -413,12 +487,19 @@ def judge_query(ctx, case, db, rows, by_id, q, after_history=False):
             for v in contracts.drain():
                 report(ctx, case, "contract", v)
             msg = repr(ex)[:200]
-            if label == "str" and cols == ["length"] and "no such column: length" in msg:
+            if label == "str" and cols == ["length"] and "no such column: length" in msg and not built:
                 report(ctx, case, "length-str", {
                     "why": "order_by='length' given as a plain string raises (only the tuple/list form is translated "
                            "to end - start) [candidate F-C11-1]", "raised": msg, "query": qd})
             else:
-                report(ctx, case, "raised", {"why": "query raised an exception", "raised": msg, "order_by": repr(ob), "query": qd})
+                why = "query raised an exception"
+                if built:
+                    why += " (order_by names are strings built at run time: equal to the literal names, other objects)"
+                if odd_strand:
+                    why += " (strand=%r, %s)" % (q["strand"], "a value present in the data" if any(
+                        r["strand"] == q["strand"] for r in rows) else "a value not present in the data")
+                report(ctx, case, "raised" + (":built order_by" if built else "") + (":strand" if odd_strand else ""),
+                       {"why": why, "raised": msg, "order_by": repr(ob), "query": qd})
             continue
         stmts = [s for _, s in sqltrace.LOG if "FROM features" in s]
         ctx.mon("sql: ORDER BY seen" if any("ORDER BY" in s for s in stmts) else "sql: SELECT without ORDER BY seen")
@@ -434,6 +515,26 @@ def judge_query(ctx, case, db, rows, by_id, q, after_history=False):
         elif form is not None and form not in ("str", "list", "tuple", "set"):
             ctx.mon("results compared for a featuretype given as frozenset / dict / dict view / deque")
         d = M.multiset_diff(got, want)
+        if not d:
+            if built:
+                ctx.mon("results judged for order_by names built at run time (%s)" % built)
+                for c in cols:
+                    if c in ("length", "file_order"):
+                        ctx.mon("results judged for order_by %r built at run time: %s" % (c, "alone, as str" if label == "str" else
+                                "alone, in a 1-%s" % label if len(cols) == 1 else "inside a %s of several" % label))
+                    else:
+                        ctx.mon("results judged for a real column name built at run time: " + ("alone" if len(cols) == 1 else "inside a tuple / list"))
+            if q["strand"] is not None and case["set"].get("flavor") == "strands":
+                present = any(r["strand"] == q["strand"] for r in rows)
+                ctx.mon("strand filter %s: results judged (%s)" % (
+                    "'?'" if q["strand"] == "?" else "'+' / '-' / '.'" if not odd_strand else "an unusual value (none of + - . ?)",
+                    "value present in the data" if present else "value not present: nothing returned"))
+                if odd_strand and want:
+                    ctx.mon("strand filter other than '+' / '-' / '.': non-empty results: %s" % q["api"])
+                    if q["ft"] is not None:
+                        ctx.mon("strand filter other than '+' / '-' / '.': non-empty results with a featuretype restriction")
+                    if cols is not None:
+                        ctx.mon("strand filter other than '+' / '-' / '.': non-empty results with order_by" + (" and reverse" if q["reverse"] else ""))
         if d:
             filt = "+".join(x for x in ("featuretype:" + str(q["ft_form"]) if q["ft"] is not None else "",
                                         "strand" if q["strand"] else "", "limit" if q["limit"] else "") if x) or "no filter"
@@ -800,6 +901,12 @@ def account_query(ctx, setp, q, r, cls=None):
             ctx.classes["featuretype containing %s (%s)" % (name, "str" if q["ft_form"] == "str" else "collection")] += 1
     if q["strand"]:
         ctx.classes["with strand"] += 1
+        if q["strand"] not in ("+", "-", "."):
+            ctx.classes["with strand '?'" if q["strand"] == "?" else "with an unusual strand value"] += 1
+    if q.get("ob_built") and cols is not None:
+        ctx.classes["order_by names built at run time: " + q["ob_built"]] += 1
+        for c in cols:
+            ctx.classes["order_by name built at run time=" + c] += 1
     if q["limit"]:
         ctx.classes["with limit"] += 1
     if q["reverse"]:
@@ -816,7 +923,7 @@ def run(ctx):
     nkinds = 45 if quick else 72
     for si in range(nsets):
         setp = {"seed": rng.randrange(1 << 30), "n": rng.choice([12, 25, 40, 60, 90])}
-        flavor = (None, "empty", "odd", None, "norm", "odd")[si % 6]
+        flavor = (None, "empty", "odd", "strands", "norm", "odd")[si % 6]
         if si == 7:
             flavor = "empty-all"
         if flavor:
